@@ -101,7 +101,8 @@ def run(ctx):
     for k in ls.lh:
         if ls.next.get(k) is T.add(ls.lh[k], index_term(probs, it)) and ls.init.get(k) is T.ZERO:
             cum_key = k
-    elem_ok = isinstance(ls.elem, Tup) and ev.t(ls.elem.items[0]) is it
+    # (index, p) pairs of enumerate(), or the probabilities themselves with the position counted by the iterator
+    elem_ok = (isinstance(ls.elem, Tup) and ev.t(ls.elem.items[0]) is it) or (not isinstance(ls.elem, Tup) and ls.elem is not None and ev.t(ls.elem) is index_term(probs, it))
     ctx.check('C16.sample.scan_order', A, 'scan_order', cum_key is not None and ls.n is n and elem_ok,
               expected='scan over enumerate(probs) in index order with cum_0 = 0, cum_{i+1} = cum_i + probs[i]',
               found='n=%s, carried: %s' % (show(ls.n), '; '.join('%s: init %s next %s' % (keyrepr(k), show(ls.init[k]), show(ls.next[k])) for k in ls.lh)),
